@@ -164,4 +164,16 @@ void zstd_verif_pool_dequeued(void* ctx, void* opaque);
     __CPROVER_assert((blockSize) >= 1 && (blockSize) <= (128u << 10), "C06 chunk: every block holds between 1 and 128 KB of input"); \
     zstd_verif_ghost.chunk_src_bytes += (blockSize); if (zstd_verif_ghost.chunk_blocks < 2) zstd_verif_ghost.chunk_blocks++; zstd_verif_ghost.chunk_last_seen |= (lastBlock)
 
+/* ---- block splitter (ZSTD_compressBlock_splitBlock_internal): partition loop ----
+ * the remaining capacity shrinks by exactly what was written and the output cursor stays at dst + written.
+ * (The swap of the two compressed-block states done by the partition writer is abstracted away by its contract.) */
+#define ZSTD_VERIF_SPLIT_LOOP(zc, i, numSplits, ip, op, dst, cap, cSize, srcBytesTotal, dRep, cRep) \
+    __CPROVER_assigns(i, ip, op, cap, cSize, srcBytesTotal, dRep, cRep, \
+                      (zc)->blockSplitCtx.currSeqStore, (zc)->blockSplitCtx.nextSeqStore, __CPROVER_object_whole(dst)) \
+    __CPROVER_loop_invariant((i) <= (numSplits) + 1 \
+        && (cSize) + (cap) == __CPROVER_loop_entry(cap) && (cSize) <= __CPROVER_loop_entry(cap) \
+        && __CPROVER_same_object(op, dst) \
+        && (size_t)(__CPROVER_POINTER_OFFSET(op) - __CPROVER_POINTER_OFFSET(dst)) == (cSize)) \
+    __CPROVER_decreases((numSplits) + 1 - (i))
+
 #endif
